@@ -25,6 +25,11 @@ CLAIMED = {
         technique='deterministic simulation: seeded save/overwrite/append/load/rm histories on the real StdFileSystem over a simulated disk (EIO, ENOSPC with short writes, process crash with un-flushed buffers), the real in-memory file system and record sequences, checked operation by operation against a map model',
         text='Seeded exploration of persistence histories over 2-8 paths on both file systems and on record sequences, half of the runs with injected I/O errors, disk-full budgets and process crashes. Read-your-writes, flushed-prefix durability after a crash, error surfacing and recovery after a fault are checked against a map model; every loaded value must be pg.eq, same type, same hash and a well-formed tree. The value-space half of C05 (injectivity of the JSON encoding) is covered only on the payloads the workload uses.',
         note='Trusted: the simulated disk (kernel state + per-handle user buffer; process crash, not power loss), fresh registries per run. NaN payloads excluded. After an injected OSError the path is unknown until the next successful save.'),
+    'C01': dict(
+        engine='symtree', design='§2',
+        technique='deterministic simulation: seeded operation-and-fault histories (rejected element in a batch, raising user handler, scoped flags that remove phases of a mutation) over forests of symbolic trees; structural invariant and identity diff evaluated on the real forest after every step',
+        text='Seeded exploration of histories of ~45 kinds of public operations at arbitrary nodes of 1-3 trees, with interruption faults; after every step every reachable node must have the container that stores it as parent, the true key sequence as path, be found by looking that path up, appear once in the forest, and every node the step removed must no longer claim a live container as parent. No predictive model: the invariant is evaluated on the real forest.',
+        note='Trusted: the walk over sym_items() and identity maps. One caller thread (pyglove documents no thread safety for shared trees). Cycles (inserting a root into its own subtree) excluded. After an injected handler exception re-indexing of that root is not asserted until its next successful notification.'),
 }
 
 NOT_APPLICABLE = {}
